@@ -106,7 +106,13 @@ def check_all(tr, jumps, states, labels_site, M, n_atoms, T, dt, temp, info, dim
         # ---- graph
         m = gcall(jumps.trajectory.metrics)
         nu = float(gcall(m.attempt_frequency)[0])
-        if np.isfinite(nu) and nu > 0:
+        # a per-frame step of exactly half a cell edge is a genuine tie of the minimum image: the attempt frequency (and with it
+        # the activation energies) is then not defined by the geometry and may differ between two evaluations
+        st_ = np.diff(np.asarray(gcall(lambda: jumps.trajectory.positions), float), axis=0)
+        tie = bool(np.any(np.abs(np.abs(st_ - np.round(st_)) - 0.5) < 1e-6))
+        if tie:
+            info['labels'].append('half-cell-tie-graph-skipped')
+        if np.isfinite(nu) and nu > 0 and not tie:
             for kw in ({},) + ((dict(min_e_act=bounds[0], max_e_act=bounds[1]),) if bounds else ()):
                 G = gcall(jumps.to_graph, **kw)
                 if sorted(G.nodes) != list(range(S)) or any(G.nodes[i].get('label') != labels_site[i] for i in range(S)):
@@ -168,7 +174,8 @@ def check_all(tr, jumps, states, labels_site, M, n_atoms, T, dt, temp, info, dim
         #      E = -ln( n_jumps / (fraction of atoms at the start label x N x part time) [/2 for X->X] / attempt frequency ) k_B T / e
         nu_ = float(gcall(gcall(jumps.trajectory.metrics).attempt_frequency)[0])
         ae = gcall(jumps.activation_energies, n_parts, allow=(ValueError, ZeroDivisionError)) if n_parts >= 2 else Raised(None)
-        if not isinstance(ae, Raised) and np.isfinite(nu_) and nu_ > 0 and not double:
+        st2_ = np.diff(np.asarray(gcall(lambda: jumps.trajectory.positions), float), axis=0)
+        if not isinstance(ae, Raised) and np.isfinite(nu_) and nu_ > 0 and not double and not np.any(np.abs(np.abs(st2_ - np.round(st2_)) - 0.5) < 1e-6):
             locs = [gcall(p.atom_locations) for p in gcall(tr.split, n_parts)]
             with np.errstate(divide='ignore', invalid='ignore'):
                 for pair in set(pairs):
